@@ -2,7 +2,7 @@
    measured on the interpreter, validation table, default, trait kind / comparison mode,
    handler list) and the history of (operation, observation recorded from the implementation). *)
 From Coq Require Import List Arith Bool PeanoNat ZArith.
-From TV Require Import Common.Harness C02.Model C02.Law.
+From TV Require Import Common.Harness C02.Model C02.Law C02.Dyn.
 Import ListNotations.
 Local Open Scope nat_scope.
 
@@ -12,8 +12,9 @@ Record config := mkConfig {
   c_validate : list (option val);    (* what the trait's validate does to pool[i] *)
   c_default : val;
   c_kind : tkind;
-  c_handlers : list handler;
-  c_store_original : bool
+  c_handlers : list handler;         (* registered before the history starts, in notifier-list order *)
+  c_store_original : bool;
+  c_reacts : list (nat * reaction)   (* what handlers do to the notifier lists while they are being notified *)
 }.
 
 Definition tbl (m : list (list cmp)) (a b : val) : cmp := nth b (nth a m []) CRaise.
@@ -23,7 +24,7 @@ Definition env_of (c : config) : env :=
      e_default := c_default c; e_kind := c_kind c; e_handlers := c_handlers c;
      e_store_original := c_store_original c |}.
 
-Definition case := (config * list (op * obs))%type.
+Definition case := (config * list (dop * obs))%type.
 
 (* codes: 1 outcome, 2 stored value, 3 handler calls (ids, old, new, ORDER), 4 exception sink *)
 Definition obs_diff (m i : obs) : list Z :=
@@ -32,13 +33,18 @@ Definition obs_diff (m i : obs) : list Z :=
   ++ chk 3 (list_eqb call_eqb (o_calls m) (o_calls i))
   ++ chk 4 (list_eqb call_eqb (o_sink m) (o_sink i)).
 
-(* the model is re-synchronised on the implementation's stored value after every step *)
-Fixpoint corr_hist (E : env) (i : Z) (s : option val) (h : list (op * obs)) : list Z :=
+(* the model (Dyn.dstep: handlers may be registered / removed in the middle, or remove themselves during dispatch) is
+   re-synchronised after every step on the implementation's stored value and on the self-unregistrations implied by the
+   implementation's own calls (Dyn.dnext) *)
+Fixpoint corr_hist (E : env) (once : list (nat * reaction)) (i : Z) (st : dstate) (h : list (dop * obs)) : list Z :=
   match h with
   | [] => []
   | (o, ob) :: r =>
-      map (fun c => (100 * i + c)%Z) (obs_diff (snd (step E s o)) ob) ++ corr_hist E (i + 1)%Z (o_slot ob) r
+      map (fun c => (100 * i + c)%Z) (obs_diff (snd (dstep E once st o)) ob)
+      ++ corr_hist E once (i + 1)%Z (dnext once st o ob) r
   end.
 
-Definition corr_codes (c : case) : list Z := let '(cfg, h) := c in corr_hist (env_of cfg) 0%Z None h.
-Definition law_codes (c : case) : list Z := let '(cfg, h) := c in law_hist (env_of cfg) 0%Z None h.
+Definition corr_codes (c : case) : list Z :=
+  let '(cfg, h) := c in corr_hist (env_of cfg) (c_reacts cfg) 0%Z (init (env_of cfg)) h.
+Definition law_codes (c : case) : list Z :=
+  let '(cfg, h) := c in dlaw_hist (env_of cfg) (c_reacts cfg) 0%Z (init (env_of cfg)) h.
